@@ -162,7 +162,67 @@ func c12Child(line string) string {
 	if !bytes.Equal(out, nw) {
 		st = "DIFFERENT"
 	}
+	// once more through the ONE patch context this process keeps for all its applications, the old file handed
+	// over in the one reader it recycles (a pool that refills a single reader): what came before must not matter
+	if st == "same" && sp < 0 {
+		if out2, e2 := bsdiffApplyShared(old, cs, int64(len(nw))); e2 != "" {
+			return res + " || APPLY-reused-context-" + e2
+		} else if !bytes.Equal(out2, nw) {
+			return fmt.Sprintf("%s || %d %d REUSED-CONTEXT-DIFFERENT", res, len(out2), wvlib.Fnv(out2))
+		}
+	}
 	return fmt.Sprintf("%s || %d %d %s", res, len(out), wvlib.Fnv(out), st)
+}
+
+var c12SharedPC = bsdiff.NewPatchContext()
+var c12SharedReader = bytes.NewReader(nil)
+
+func bsdiffApplyShared(old []byte, cs []bctrl, newSize int64) (out []byte, perr string) {
+	defer func() {
+		if r := recover(); r != nil {
+			perr = fmt.Sprintf("PANIC %v", r)
+			c12SharedPC = bsdiff.NewPatchContext()
+		}
+	}()
+	// first another old file of the same length (every byte different) read from end to end through the same
+	// context and reader, so that a replay of this case alone has the same history
+	if len(old) > 0 {
+		prime := make([]byte, len(old))
+		for k := range prime {
+			prime[k] = old[k] ^ 0x5a
+		}
+		c12SharedReader.Reset(prime)
+		var sink bytes.Buffer
+		k := 0
+		c12SharedPC.Patch(c12SharedReader, &sink, int64(len(prime)), func(msg proto.Message) error {
+			c := msg.(*bsdiff.Control)
+			c.Reset()
+			if k == 0 {
+				c.Add = make([]byte, len(prime))
+			} else {
+				c.Eof = true
+			}
+			k++
+			return nil
+		})
+	}
+	c12SharedReader.Reset(old)
+	var buf bytes.Buffer
+	i := 0
+	err := c12SharedPC.Patch(c12SharedReader, &buf, newSize, func(msg proto.Message) error {
+		if i >= len(cs) {
+			return io.ErrUnexpectedEOF
+		}
+		c := msg.(*bsdiff.Control)
+		c.Reset()
+		c.Add, c.Copy, c.Seek, c.Eof = cs[i].add, cs[i].cp, cs[i].seek, cs[i].eof
+		i++
+		return nil
+	})
+	if err != nil {
+		return nil, "ERR " + err.Error()
+	}
+	return buf.Bytes(), ""
 }
 
 type C12Case struct {
@@ -308,6 +368,8 @@ func c12One(env *Env, ch *wvlib.Child, m *wvlib.Model, c *C12Case) {
 		env.R.Violate("no-eof-message", trunc(ans, 300), c)
 	} else if strings.Contains(ans, "|| APPLY-") {
 		env.R.Violate("apply-fails", trunc(ans[strings.Index(ans, "||"):], 300), c)
+	} else if strings.HasSuffix(ans, "REUSED-CONTEXT-DIFFERENT") {
+		env.R.Violate("roundtrip:reused-patch-context", trunc(ans[strings.Index(ans, "||"):], 300), c)
 	} else if strings.HasSuffix(ans, "DIFFERENT") {
 		env.R.Violate("roundtrip", trunc(ans[strings.Index(ans, "||"):], 300), c)
 	}
